@@ -175,9 +175,21 @@ def run(tier: str) -> int:
     t_budget = 110 if tier == "quick" else 2400
     t_work0 = time.time()      # budgets count from here: the proof stage before depends on machine load
 
-    def judge(prog, version, opts, expect_ok, what, extra=None, key_on_crash=None):
+    shared_objs: dict = {}
+
+    def judge(prog, version, opts, expect_ok, what, extra=None, key_on_crash=None, shared=False):
+        """shared: the compilation receives the ONE OptimizeOptions object this run keeps per setting (a module-level `OPTS = ...`)"""
         nonlocal evaluations
-        res = compile_real(prog, version, **opts)
+        if shared:
+            import pyteal as _pt
+            key = tuple(sorted(opts.items()))
+            if key not in shared_objs:
+                shared_objs[key] = _pt.OptimizeOptions(**opts)
+            res = compile_real(prog, version, options_obj=shared_objs[key])
+            stats["compiled with a shared options object"] += 1
+            extra = dict(extra or {}, shared_options_object=True)
+        else:
+            res = compile_real(prog, version, **opts)
         evaluations += 1
         cls = classify(res)
         stats[f"{what}:{cls}"] += 1
@@ -231,6 +243,17 @@ def run(tier: str) -> int:
         for v in ([2, 6, 9] if tier == "quick" else versions):
             judge(prog, v, {}, False, "loop-header", {"case": name})
 
+    # ---- (a') programs whose slots the optimiser must leave alone (a reserved slot, a slot shared by two routines, each stored and
+    # loaded back to back), compiled one after the other with ONE options object per setting
+    for k in range(6 if tier == "quick" else 40):
+        a_, g_ = Var(U, r.choice([3, 7, 100, 255])), Var(U)
+        f_ = Sub(0, "reader", [], U, None)
+        f_.body = ("op", "Add2", [("load", g_), ("int", 1 + k)])
+        main_ = ("seq", [("store", a_, ("int", 10 + k)), ("op", "PopU", [("load", a_)]), ("store", g_, ("txn", "Fee")),
+                         ("op", "PopU", [("load", g_)]), ("op", "PopU", [("call", f_, [])]), ("approve",)])
+        for v, o in ((6, {"scratch_slots": True}), (9, {}), (10, {"scratch_slots": True, "frame_pointers": True})):
+            judge(Program("app", main_, [a_, g_], [f_]), v, o, True, "protected-slots", {"case": k}, shared=True)
+
     # ---- (b) random well-typed programs, model outcome class vs real outcome class
     nrand = 260 if tier == "quick" else 4000
     for i in range(nrand):
@@ -247,7 +270,7 @@ def run(tier: str) -> int:
         v = r.choice([2, 3, 4, 5, 6, 7, 8, 9, 10])
         opts = r.choice(option_sets(v, bool(p.subs)))
         design = rejected_by_design(p.main) or any(rejected_by_design(s.body) for s in p.subs)
-        res, cls = judge(p, v, opts, v >= need and not design, "random")
+        res, cls = judge(p, v, opts, v >= need and not design, "random", shared=r.random() < 0.3)
         if not p.subs and cls in ("ok", "err"):
             # correspondence of outcome classes with the Lean model of code generation
             a = d.ask(f"prog pm {to_sexp(p)}")
@@ -302,4 +325,17 @@ def replay(path: str) -> int:
     if "program_pickle" in body:
         res = compile_real(unpack(body["program_pickle"]), body["version"], **body.get("options", {}))
         print("recompiled with the current /repo:", res[0], res[1:] if res[0] != "ok" else f"{len(res[1].splitlines())} lines")
+        if body.get("shared_options_object"):
+            # the recorded compilation received an OptimizeOptions object that earlier compilations had been given: compile a program
+            # with protected slots first, then this one, with one object
+            import pyteal as _pt
+            o = _pt.OptimizeOptions(**body.get("options", {}))
+            a_, g_ = Var(U, 7), Var(U)
+            f_ = Sub(0, "reader", [], U, None)
+            f_.body = ("op", "Add2", [("load", g_), ("int", 1)])
+            first = Program("app", ("seq", [("store", a_, ("int", 10)), ("op", "PopU", [("load", a_)]), ("store", g_, ("txn", "Fee")),
+                                            ("op", "PopU", [("load", g_)]), ("op", "PopU", [("call", f_, [])]), ("approve",)]), [a_, g_], [f_])
+            compile_real(first, body["version"], options_obj=o)
+            res = compile_real(unpack(body["program_pickle"]), body["version"], options_obj=o)
+            print("recompiled after another program with ONE options object:", res[0], res[1:] if res[0] != "ok" else f"{len(res[1].splitlines())} lines")
     return 0
